@@ -51,7 +51,7 @@ func (d *astDump) dump(a parser2.AST, depth int) {
 		case value.Int:
 			d.tok("c", "i", fmt.Sprint(int64(v)))
 		case value.Float:
-			d.tok("c", "f", fmt.Sprintf("%016x", math.Float64bits(float64(v))))
+			d.tok("c", "f", fmt.Sprintf("%016x", floatBitsCanon(float64(v))))
 		case value.String:
 			d.tok("c", "s", cps(string(v)))
 		case value.Bool:
@@ -298,4 +298,13 @@ func parseUnoptimized(fg *value.FunctionGenerator, src string, names []string) (
 	}()
 	idents := fg.Identifier().AddArgs(names, nil)
 	return fg.CreateAst(src, idents)
+}
+
+// floatBitsCanon: the bits of a float with every NaN written as the one quiet NaN of the model (sign and payload of a NaN
+// are not part of any comparison: Go's 0/0 carries the sign bit, Lean's does not)
+func floatBitsCanon(f float64) uint64 {
+	if math.IsNaN(f) {
+		return 0x7ff8000000000000
+	}
+	return math.Float64bits(f)
 }
